@@ -66,6 +66,29 @@ pub fn flat_eq<T: Flat>(a: &T, b: &T) -> bool {
     }
     r
 }
+/// the flat words of a value in a buffer sized for the largest storable value
+pub fn flat_words<T: Flat>(a: &T) -> [u64; model::VW] {
+    let mut x = [0u64; model::VW];
+    if T::W > model::VW {
+        model::overflow()
+    }
+    a.put(&mut x[..T::W]);
+    x
+}
+/// (equal, less-than) of two flat encodings of width `w` (same order as `flat_eq` / `flat_lt`)
+pub fn words_cmp(x: &[u64; model::VW], y: &[u64; model::VW], w: usize) -> (bool, bool) {
+    let mut lt = false;
+    let mut decided = false;
+    let mut i = 0;
+    while i < w {
+        if !decided && x[i] != y[i] {
+            decided = true;
+            lt = x[i] < y[i];
+        }
+        i += 1;
+    }
+    (!decided, lt)
+}
 /// lexicographic order of flat encodings (the model's total order on map keys)
 pub fn flat_lt<T: Flat>(a: &T, b: &T) -> bool {
     let mut x = [0u64; model::VW];
